@@ -7,23 +7,23 @@ ALL = ["C%02d" % i for i in range(1, 19)]
 # id -> (technique, level text, level note, design_ref)
 CLAIMED = {
  "C07": ("differential runtime monitor: real backends vs. sequential map-with-expiry reference model over seeded random op sequences",
-         "Exploration: every result of seeded random operation sequences on the three real backends is compared online with a reference map-with-expiry; evidence lists op counts and the (op,state) pairs covered. Held on what was observed, not for all sequences.",
+         "Exploration: every result of seeded random operation sequences on the three real backends is compared online with a reference map-with-expiry; evidence lists op counts and the (op,state) pairs covered. Values include a non-comparable type; contexts are reused and SkipRead-wrapped; each case runs under a blocked-call detector; a volume family (9000-45000 entries) checks Len/Walk/reads/deletes. Held on what was observed, not for all sequences.",
          "Wall clock not stepped; TTL margins >=0.5s separate fresh/expired; the reference model (c07_seqmodel.go) is the trusted oracle.",
          "2/C07"),
  "C10": ("runtime monitor with wall-clock bracketing: expiry read back through Walk/ErrWithExpiredItem vs. documented TTL interval",
-         "Exploration: seeded writes over TTL magnitudes 1ns..100y (both signs), all jitter settings and the three backends; each stored expiry is checked against the documented interval using clock readings taken around the Write, reads on either side of the expiry are checked, and jitter distribution blocks check two-sidedness and width.",
+         "Exploration: seeded writes over TTL magnitudes 1ns..100y (both signs), all jitter settings and the three backends; each stored expiry is checked against the documented interval using clock readings taken around the Write, reads on either side of the expiry are checked, and jitter distribution blocks check two-sidedness and width. The measured write may be a Store, an overwrite of an entry with a very different expiry (all eviction strategies), or made by Failover/FailoverOf on behalf of a context with a history of failed builds.",
          "Wall clock not stepped; eps = 2ns + |T|*2^-52 for float rounding; distribution thresholds have negligible false-alarm probability (<1e-90).",
          "2/C10"),
  "C11": ("runtime monitor on the real janitor goroutine, paused between cycles at its EvictionNeeded call-out, vs. reference model of survivors",
-         "Exploration: the real janitor (1ms interval) is stepped cycle by cycle; after each cycle Len/Walk/Read are compared with a model in which exactly the entries expired more than DeleteExpiredAfter ago disappear (finite and Unlimited TimeToLive, late first per-call TTL, hostile metric call-outs of DeleteAll/ExpireAll performing racing writes); further families: real-time aging across a 30ms DeleteExpiredAfter with sound brackets, free-running janitor stress (fresh rewrites and ExpireAll-renewed entries must survive), and the janitor parked at the verif pause point between inspecting and deleting an entry (SyncMap).",
+         "Exploration: the real janitor (1ms interval) is stepped cycle by cycle; after each cycle Len/Walk/Read are compared with a model in which exactly the entries expired more than DeleteExpiredAfter ago disappear (finite and Unlimited TimeToLive, late first per-call TTL, hostile metric call-outs of DeleteAll/ExpireAll performing racing writes); further families: real-time aging across a 30ms DeleteExpiredAfter with sound brackets, free-running janitor stress (fresh rewrites and ExpireAll-renewed entries must survive), and the janitor parked at the verif pause point between inspecting and deleting an entry (SyncMap). Later additions: clean-out followed by late TTL writes, content arriving by Restore, a bounded-progress family next to a fast items reporter (verdict in reporter ticks), and a stepped cycle over 12000-32000 long-expired entries.",
          "Gate relies on the janitor consulting EvictionNeeded once per cycle when no limit is breached (true for the code under test; a watchdog turns a missing call-out into inconclusive). TTL class margins >=1s vs. a 1h boundary.",
          "2/C11"),
  "C12": ("runtime monitor on the real janitor goroutine gated at EvictionNeeded / Stats.Add(cache_evict); amount, metric and rank-order oracle",
-         "Exploration: seeded (limit, size, fraction, strategy, trigger incl. sys-memory limits, access history, long-expired entries purged by the same cycle, content arriving by Write / Dump+Restore / ExpireAll) cases; exactly one eviction cycle is let through and judged for trigger, amount (within one entry), cache_evict metric and strategy order (max rank removed <= min rank kept, ties free); plus a convergence family (free-running janitor, late writes over the limit, bounded progress).",
+         "Exploration: seeded (limit, size, fraction, strategy, trigger incl. sys-memory limits, access history, long-expired entries purged by the same cycle, content arriving by Write / Dump+Restore / ExpireAll) cases; exactly one eviction cycle is let through and judged for trigger, amount (within one entry), cache_evict metric and strategy order (max rank removed <= min rank kept, ties free); plus a convergence family (free-running janitor, late writes over the limit, bounded progress). LFU cases with 4200-16200 serves per entry.",
          "Harness-side rank bookkeeping (expiry from a pre-eviction Walk, last-read order with a strictly advancing clock, read counts) is the trusted oracle; only fresh entries are read so 'served' is unambiguous.",
          "2/C12"),
  "C13": ("differential runtime monitor: Walk/Read of restored caches vs. source across all backend pairings and relay chains",
-         "Exploration: seeded entry sets (0..400, hostile keys, nil/zero/populated registered values, no / near / far-past / far-future expiry) are dumped and restored across every pairing and relayed 1..4 times into receivers of varying configuration (Unlimited/default TTL, small count limit); every relay must equal the source; concurrent dumps of one cache must both be complete; truncated streams must yield a subset.",
+         "Exploration: seeded entry sets (0..400, hostile keys, nil/zero/populated registered values, no / near / far-past / far-future expiry) are dumped and restored across every pairing and relayed 1..4 times into receivers of varying configuration (Unlimited/default TTL, small count limit); every relay must equal the source; concurrent dumps of one cache must both be complete; truncated streams must yield a subset. A failing Dump may precede the real one; a volume family (9000-45000 entries) is judged against what was written.",
          "reflect.DeepEqual over a value alphabet chosen to avoid gob's nil-vs-empty ambiguity is the equality; gob itself is trusted.",
          "2/C13"),
  "C15": ("reference-model monitor with complete deleter-fault enumeration per scenario, plus concurrent stress with conservation oracle",
@@ -31,11 +31,11 @@ CLAIMED = {
          "Index model in c15_labels.go is the oracle; labels consumed by a successful invalidation are not re-applied by the workloads.",
          "2/C15"),
  "C17": ("offline checker over callback log and caller timestamps (ordering, exactly-once, non-overlap, sound monotonic-clock bracketing)",
-         "Exploration: seeded bursts, sequences and chain patterns (slow first run, caller queued on the lock) of 1..32 callers, 0..5 callbacks (one may be registered during a run), several SkipIntervals (also changed between phases); accepted calls run all registered callbacks once in order, rejected run none, groups never interleave, consecutive accepted calls are >= SkipInterval apart (bracketing inequality tightened by the end of the previous run), and a call that begins >= SkipInterval after every earlier call returned must be accepted.",
+         "Exploration: seeded bursts, sequences and chain patterns (slow first run, caller queued on the lock) of 1..32 callers, 0..5 callbacks (one may be registered during a run), several SkipIntervals (also changed between phases); accepted calls run all registered callbacks once in order, rejected run none, groups never interleave, consecutive accepted calls are >= SkipInterval apart (bracketing inequality tightened by the end of the previous run), and a call that begins >= SkipInterval after every earlier call returned must be accepted. Also: callers with cancelled contexts, and a callback that panics (recovered by the caller) - the run counts as accepted, nothing is left locked.",
          "Only bracketing inequalities on the monotonic clock are used, so load cannot cause false alarms (it only reduces detection power).",
          "2/C17"),
  "C01": ("online monitor of builder [entry,exit] intervals over steered (seeded scheduler at every call-out) and free-running stress executions of the real Failover",
-         "Exploration: thousands of seeded schedules of 2..12 concurrent Gets over 1..3 keys across the configuration product, both APIs, fault injection, caller misbehaviour (buffer-reuse family), context-error and nil builder outcomes, slow builders with UpdateTTL=1ms; an online monitor flags any instant with two builders active for one key. Evidence counts contended runs and distinct schedule signatures.",
+         "Exploration: thousands of seeded schedules of 2..12 concurrent Gets over 1..3 keys across the configuration product, both APIs, fault injection, caller misbehaviour (buffer-reuse family), context-error and nil builder outcomes, slow builders with UpdateTTL=1ms; ObserveMutability on in a quarter of the cases; an online monitor flags any instant with two builders active for one key. Evidence counts contended runs and distinct schedule signatures.",
          "Interleavings inside library critical sections are not explored (atomic by construction); the steered executor uses runtime.Stack statuses and only ever yields 'inconclusive' on malfunction.",
          "2/C01"),
  "C02": ("offline provenance checker over recorded event logs with unique tokens; backend fault injection at every call index in turn",
@@ -43,15 +43,15 @@ CLAIMED = {
          "Token uniqueness per run; harness builders never produce zero values.",
          "2/C02"),
  "C03": ("complete enumeration of the finite decision table against the real code, judged by documented outcome classes plus differential agreement across APIs/backends",
-         "Exhaustive over the table stated in the property (168 consistent cells x 3 pairings x repetitions alternating SyncRead and plain / pre-cancelled / deadlined caller contexts): result class, builder invocation count/timing, backend content, failure cache and lock state after quiescence; plus a pass in which the entry is deleted while the builder runs.",
+         "Exhaustive over the table stated in the property (168 consistent cells x 3 pairings x repetitions alternating SyncRead and plain / pre-cancelled / deadlined caller contexts): result class, builder invocation count/timing, backend content, failure cache and lock state after quiescence; plus a pass in which the entry is deleted while the builder runs. Further passes: ObserveMutability with non-comparable values, MaxStaleness=MaxInt64, a history pass (earlier builder panic on the key), and the too-stale rows on a Failover that owns its backend with a running janitor.",
          "Expected classes are transcribed from README/FailoverConfig docs (c03_table.go); for 'failure cached + stale value' both documented readings are accepted.",
          "2/C03"),
  "C04": ("logical-deadlock detection under the steered executor, lock-table invariant hook at quiescence, black-box follow-up Gets, write-placement checker over the event log",
-         "Exploration: same schedule families as C01 with callers cancelling contexts and rewriting key buffers after return, failing builders and rejected backend writes; a run is refuted by a logical deadlock, a lock left after quiescence, a build result written under another key, or a follow-up Get that cannot rebuild.",
+         "Exploration: same schedule families as C01 with callers cancelling contexts and rewriting key buffers after return, failing builders and rejected backend writes; a run is refuted by a logical deadlock, a lock left after quiescence, a build result written under another key, or a follow-up Get that cannot rebuild. Further: mass expiration (hundreds, once >10000, of parked background builds), a lost-update oracle for SyncRead runs, and sustained requests of a failed key (must rebuild after 2 x FailedUpdateTTL).",
          "Unbounded liveness is restated as deadlock freedom on explored schedules and bounded progress in free mode.",
          "2/C04"),
  "C05": ("event-log monitors (no build after stored success with SyncRead; no build within 0.9*FailedUpdateTTL of a failure) plus sequential executable model",
-         "Exploration: concurrent bursts with and without SyncRead (steered/free, yield points also at the failure-cache read), sequential scripts with the failing invocation at every position x FailedUpdateTTL {default,1h,-1} judged against an executable model, re-expire sequences (stale value, failing rebuild, repeated ExpireAll), failure-cache expiry bracket and rebuild after simulated elapse (Errors.ExpireAll).",
+         "Exploration: concurrent bursts with and without SyncRead (steered/free, yield points also at the failure-cache read), sequential scripts with the failing invocation at every position x FailedUpdateTTL {default,1h,-1} judged against an executable model, re-expire sequences (stale value, failing rebuild, repeated ExpireAll), failure-cache expiry bracket and rebuild after simulated elapse (Errors.ExpireAll). Further: rebuild to an equal value with UpdateTTL=1ms (no second build after UpdateTTL), done caller contexts, and a Failover that owns a backend with eviction limits (failure cache unaffected).",
          "Suppression is only judged for events whose monotonic timestamps are within 0.9*FailedUpdateTTL of the failure; SkipRead is documented to bypass cache reads including the failure cache.",
          "2/C05"),
  "C06": ("context observation inside harness builders/backend wrapper vs. reference TTL fold; detached-context assertions for background builds; stored expiry vs. C10 interval",
@@ -63,20 +63,20 @@ CLAIMED = {
          "The race detector only sees executed accesses; claim is 'no report in the programs x repetitions executed'. A report without a library frame fails the check as broken.",
          "2/C16"),
  "C08": ("porcupine linearizability checking of recorded client-boundary histories against a per-key nondeterministic register model, plus a walk monitor",
-         "Exploration: thousands of short concurrent histories (2..16 clients, 3..6 keys incl. a hash-colliding pair, op-mix profiles incl. one restricted to the colliding pair, with/without LRU/LFU, with the real janitor evicting or running its cleanup pass over long-expired entries) are recorded with one atomic logical clock and checked per key; batch operations, evictions and collision-partner writes are inserted into each affected partition as (possibly nondeterministic) operations; Walk is checked for foreign entries and for exactly-once reporting of keys stable during the walk.",
+         "Exploration: thousands of short concurrent histories (2..16 clients, 3..6 keys incl. a hash-colliding pair, op-mix profiles incl. one restricted to the colliding pair, with/without LRU/LFU, with the real janitor evicting or running its cleanup pass over long-expired entries) are recorded with one atomic logical clock and checked per key; batch operations, evictions and collision-partner writes are inserted into each affected partition as (possibly nondeterministic) operations; Walk is checked for foreign entries and for exactly-once reporting of keys stable during the walk. Clients reuse their key buffers; a volume walk family (14000-54000 stable entries, concurrent writers on other keys) checks exactly-once at scale.",
          "Model in c08_lin.go; batch ops act on each key at one instant within the call; checker timeout = inconclusive.",
          "2/C08"),
  "C09": ("collision-slot reference model over constructed xxhash64 collisions; buffer-overwrite-after-call monitor; gated background build scenario",
-         "Exploration: seeded op sequences over families of 2..4 constructed colliding 64-byte keys on all backends and eviction strategies, through backends, Failover/FailoverOf, label index and Dump/Restore; after every key-taking call the passed buffer is overwritten and stored keys/labels/background-build targets are re-checked; concurrent rounds Delete(k1) vs Write(k2) on a colliding pair (ownership oracle).",
+         "Exploration: seeded op sequences over families of 2..4 constructed colliding 64-byte keys on all backends and eviction strategies, through backends, Failover/FailoverOf, label index and Dump/Restore; after every key-taking call the passed buffer is overwritten and stored keys/labels/background-build targets are re-checked; concurrent rounds Delete(k1) vs Write(k2) on a colliding pair (ownership oracle). A third of the colliding families use long keys (common suffix up to 4000 bytes); background builds may fail (failure remembered under the original key only); a forced Get of the partner key runs while key 0's build is parked.",
          "Collision construction is specific to xxhash64 seed 0 and verified at run time (Sum64 equality asserted).",
          "2/C09"),
  "C14": ("in-process RoundTripper driving the real Export handler and Import; differential content check; child processes for types-hash determinism and a two-process transfer",
-         "Exploration: seeded name subsets on both sides (incl. names needing query escaping), all backend families, transport faults on all or on one cache only (tampered hash, truncated/failing body; the transport honours the request context); types hash evaluated in fresh child processes over permutations/multisets/variadic groupings of a 12-type pool; a separate exporter process with a different type set must be refused.",
+         "Exploration: seeded name subsets on both sides (incl. names needing query escaping), all backend families, transport faults on all or on one cache only (tampered hash, truncated/failing body; the transport honours the request context); types hash evaluated in fresh child processes over permutations/multisets/variadic groupings of a 12-type pool; a separate exporter process with a different type set must be refused. A child process keeps one Export handler alive across later type registrations (equal hash served, earlier hashes refused).",
          "GobTypesHashReset (test helper) is out of scope; gob and net/http are trusted.",
          "2/C14"),
  "C18": ("harness StatsTracker ledger vs. ground truth from the harness' own operation/event log at quiescence (conservation / exactly-once)",
-         "Exploration: backend-only sequential and concurrent workloads (each goroutine owns its keys so removals are known exactly; ExpireAll/DeleteAll at barriers), a conservation family (unique keys, racing Delete/DeleteAll: cache_delete == writes - final Len), Failover/FailoverOf runs from the C01 generator (steered and free, cancelling callers, context-error outcomes) and panicking builders; every metric and the documented sums are compared per name label.",
-         "No evictions; no backend fault injection in these workloads (cache_refreshed counts attempts).",
+         "Exploration: backend-only sequential and concurrent workloads (each goroutine owns its keys so removals are known exactly; ExpireAll/DeleteAll at barriers), a conservation family (unique keys, racing Delete/DeleteAll: cache_delete == writes - final Len), Failover/FailoverOf runs from the C01 generator (steered and free, cancelling callers, context-error outcomes) and panicking builders; every metric and the documented sums are compared per name label. Bulk phases (3000-8000 entries) before DeleteAll/ExpireAll barriers; an eviction family asserts cache_delete == successful Delete calls.",
+         "No evictions except in the eviction family; no backend fault injection in these workloads (cache_refreshed counts attempts).",
          "2/C18"),
 }
 
